@@ -39,7 +39,8 @@ ASSUMPTIONS = [
 
 _pid = itertools.count(1)
 PRECHECK = ("import sys\ntry:\n    import execnet\n    channel.send('importable from ' + execnet.__file__)\n"
-            "except ImportError:\n    channel.send('not importable')\nchannel.send(list(sys.version_info[:2]))\n")
+            "except ImportError:\n    channel.send('not importable')\nchannel.send(list(sys.version_info[:2]))\n"
+            "channel.send(channel.gateway.execmodel.backend)\n")
 POSTCHECK = "import sys\nchannel.send(sorted(m for m in sys.modules if m == 'execnet' or m.startswith('execnet.')))\n"
 
 
@@ -136,8 +137,12 @@ class Paths(Part):
                     gw = group.makegateway(f"ssh=localhost//python={iso}//execmodel={model}")
                 # precondition, checked remotely: execnet cannot be imported there
                 ch = gw.remote_exec(PRECHECK)
-                imp, ver = ch.receive(30), ch.receive(30)
+                imp, ver, backend = ch.receive(30), ch.receive(30), ch.receive(30)
                 ch.waitclose(30)
+                want_backend = model if path in ("import", "python", "via", "ssh") else "thread"
+                if backend != want_backend or gw.remote_status().execmodel != want_backend:
+                    raise Violation("paths.execmodel-ignored", f"{path}/{case['interp']}: spec asked for execmodel={want_backend}, "
+                                    f"the worker runs {backend!r}", site=path)
                 if path != "import" and imp != "not importable":
                     raise tree.HarnessError(f"vacuous case: execnet is {imp} on the {path} worker")
                 if path not in ("import", "socket_via") and ".".join(map(str, ver)) != case["interp"]:
